@@ -45,6 +45,12 @@ def gen_cases(tier: str, seed: int):
         k = zoo.SYSTEMS[i % len(zoo.SYSTEMS)]
         spec = zoo.random_sys_spec(rng, kinds=(k,), dim_range=(2, 4))
         yield {"kind": "history", "spec": spec, "length": int(rng.integers(4, maxlen + 1)), "seed": [seed, int(rng.integers(0, 2**31))]}
+    # directed: highest-order derivative first (value-returning conventions), then everything it should have made known
+    for rep in range({"quick": 3, "thorough": 30}[tier]):
+        for k in zoo.SYSTEMS:
+            spec = zoo.random_sys_spec(rng, kinds=(k,), dim_range=(2, 4))
+            spec["conv"] = {c: 1 for c in ("grad", "jac", "mhp", "vjp", "hess", "mtp")}
+            yield {"kind": "aux", "spec": spec, "seed": [seed, int(rng.integers(0, 2**31))], "variant": rep % 3}
     m = {"quick": 120, "thorough": 8000}[tier]
     for i in range(m):
         k = ["euclidean", "gaussian"][i % 2]
@@ -136,9 +142,36 @@ def case_trajectory(case, obs) -> None:
                 "grad_evals": total_grad, "dens_evals": m.calls["neg_log_dens"]})
 
 
+def aux_program(kind: str, variant: int) -> list:
+    if kind == "riem_softabs":
+        top = [["mtp_neg_log_dens"], ["vjp_metric_func"], ["dh1_dpos"]][variant]
+    elif kind in zoo.RIEMANNIAN:
+        top = [["vjp_metric_func"], ["dh2_dpos"], ["dh1_dpos"]][variant]
+    elif kind in ("constrained_nh", "gaussian_constrained"):
+        top = [["mhp_constr"], ["grad_log_det_sqrt_gram"], ["dh1_dpos"]][variant]
+    elif kind == "constrained":
+        top = [["jacob_constr"], ["gram"], ["grad_neg_log_dens"]][variant]
+    else:
+        top = [["grad_neg_log_dens"], ["dh1_dpos"], ["dh_dpos"]][variant]
+    rest = [mth for mth in hist.methods_for(kind) if mth not in top]
+    prog = [["call", 0, mth, 0] for mth in top + rest]
+    # the same again on a copy and after a momentum-only assignment: still nothing may be evaluated
+    prog += [["copy", 0, False], ["assign", 1, "mom", 12345]] + [["call", 1, mth, 0] for mth in top + rest]
+    return prog
+
+
 def run_case(case, obs) -> None:
     if case["kind"] == "trajectory":
         case_trajectory(case, obs)
+        return
+    if case["kind"] == "aux":
+        spec = case["spec"]
+        rng = np.random.default_rng([abs(int(s)) for s in case["seed"]])
+        runner = hist.Runner(spec, obs, "c18")
+        runner.start(rng)
+        runner.run(aux_program(spec["sys"], case["variant"]))
+        obs.count("aux_programs")
+        obs.token("aux", spec["sys"], case["variant"])
         return
     spec = case["spec"]
     rng = np.random.default_rng([abs(int(s)) for s in case["seed"]])
